@@ -28,7 +28,7 @@ def csspOp (toks : List String) : String :=
       -- oracle: MS-CSSP server proof decided from the reply alone
       -- ... and, when the raw reply is on the line, only from a DER-encoded TSRequest
       let derErr : Option String := match g "r2" with
-        | some raw => (match Spec.Strict.tsRequest raw with | .ok _ => none | .error e => some e)
+        | some raw => (match Spec.Strict.tsRequestV 0 raw with | .ok _ => none | .error e => some e)
         | none => none
       let proof := match r2 with | .ok pka => Spec.Cssp.serverProof ek spk pka | _ => false
       let r1ok := match r1 with | .ok _ => true | _ => false
